@@ -100,7 +100,11 @@ func UnmarshalOrdered(data []byte) (*orderedmap.OrderedMap[string, any], error) 
 	if err != nil {
 		return nil, err
 	}
-	return val.(*orderedmap.OrderedMap[string, any]), nil
+	m, ok := val.(*orderedmap.OrderedMap[string, any])
+	if !ok {
+		return nil, fmt.Errorf("log line is not a JSON object")
+	}
+	return m, nil
 }
 
 func parseValue(dec *json.Decoder) (any, error) {
